@@ -259,9 +259,10 @@ Proof. vm_compute. reflexivity. Qed.
 Lemma side_min_run_4 : c_min_run = 4.
 Proof. reflexivity. Qed.
 
-(* detect_keyboard_walk(password) as parse() calls it (fuel: one more than the model's) *)
+(* detect_keyboard_walk(password) as parse() calls it (the translated loops carry their own
+   fuel, one more than the length of the password) *)
 Definition py_keyboard_walk_c (pw : str) : option (list section * list str * list str) :=
-  py_detect_keyboard_walk c_isalpha c_isdigit c_lower (S (length pw)) pw py_detect_keyboard_walk_default_min_keyboard_run.
+  py_detect_keyboard_walk c_isalpha c_isdigit c_lower pw py_detect_keyboard_walk_default_min_keyboard_run.
 
 (* the default the source gives min_keyboard_run is the one the recursive call and the model use *)
 Lemma side_default_min_run : py_detect_keyboard_walk_default_min_keyboard_run = 4.
@@ -282,6 +283,12 @@ Proof.
   destruct (py_keyboard_walk_c pw) as [[[sl' f'] dk]|]; [|discriminate]. cbn in E. injection E as -> ->.
   exists sl, f, dk. auto.
 Qed.
+
+(* R24: for EVERY password (the empty one and one of a thousand walks included) the
+   translated detect_keyboard_walk returns: no exception, and the fuel of its two loops
+   suffices.  For every oracle: py_detect_keyboard_walk_total. *)
+Theorem py_keyboard_walk_c_total : forall pw, py_keyboard_walk_c pw <> None.
+Proof. intros pw. unfold py_keyboard_walk_c. rewrite side_default_min_run. apply py_detect_keyboard_walk_total. Qed.
 
 Definition py_keyboard_stage_c (pw : str) : option (list section) :=
   option_map (fun r => fst (fst r)) (py_keyboard_walk_c pw).
